@@ -311,6 +311,21 @@ func (vc *VC) sortOf(t types.Type) string {
 
 func (vc *VC) idx(v int64) Term { return vc.ar.Lit64(v, kInt) }
 
+// elemIndex is the absolute index off+i of slice element i. In Int mode it is written with an
+// uninterpreted function elt(off, i) axiomatised as off+i, so that quantifier triggers over slice
+// elements contain no arithmetic (E-matching cannot use patterns with +).
+func (vc *VC) elemIndex(off, i Term) Term {
+	if off.C != nil && i.C != nil || vc.ar.Mode == ModeBV {
+		t, _ := vc.ar.Bin("+", off, i, kInt)
+		return t
+	}
+	if off.C != nil && off.C.Sign() == 0 {
+		return i
+	}
+	vc.decl("fun:elt", "(declare-fun elt (Int Int) Int)\n(assert (forall ((o Int) (i Int)) (! (= (elt o i) (+ o i)) :pattern ((elt o i)))))")
+	return app(SInt, "elt", off, i)
+}
+
 func (vc *VC) zeroOf(t types.Type) Term {
 	switch u := t.Underlying().(type) {
 	case *types.Basic:
